@@ -1178,11 +1178,11 @@ theorem C04_remove_item_in_wok (w : World) (h : WOk w) (c : Nat) (s : Store) (hs
 
 /-- C04_refines: in a world satisfying WOk, an op that keeps to the documented contract does to the documented model with object
     identities (`absW`, Spec/StoreSpec: every managed CIF as container tree + loops of (category, items, packets)) exactly what
-    `specStep` says, and returns the same result — with no further hypothesis.  Covered so far (`Op.covered`, 23 of the 31 ops): cif_create, cif_destroy,
+    `specStep` says, and returns the same result — with no further hypothesis.  Covered so far (`Op.covered`, 24 of the 31 ops): cif_create, cif_destroy,
     create_block, get_block, get_all_blocks, create_frame, get_frame, get_all_frames, get_code, is-block, container_destroy, prune,
     create_loop, get_category_loop, get_item_loop, loop_get_category, loop_set_category, loop_get_names, loop_add_item,
-    loop_add_packet, loop_destroy, get_value, remove_item.  Not yet: get_all_loops, set_value (container-local refinement theorems
-    above) and the six iterator calls (C06). -/
+    loop_add_packet, loop_destroy, get_value, remove_item, get_all_loops (with the names of each loop).  Not yet: set_value
+    (container-local refinement theorems above: `C04_refines_set_value`, `C04_refines_set_value_new`) and the six iterator calls (C06). -/
 theorem C04_refines (w : World) (op : Op) (h : WOk w) (hin : inContract w op = true) (hc : op.covered = true) :
     specStep (absW w) op = some (absW (step w op).1, (step w op).2) :=
   specStep_refines w op h hin hc
